@@ -49,6 +49,8 @@ def install(bt):
 
     def sallocate(self, amount, update=True):
         sim = CUR
+        if sim is not None:
+            sim.last_sec_alloc = (self.name, amount)  # (live tree or paper copy: a refusal propagates from either)
         if sim is None or self.root is not sim.root or sim.on_sec_allocate is None:
             return o_sallocate(self, amount, update)
         return sim.on_sec_allocate(self, amount, update, o_sallocate)
@@ -106,6 +108,7 @@ class Sim(object):
     """Per-run context: real tree + reference model + event log."""
 
     on_sec_allocate = None  # optional: C05 monitor hook
+    last_sec_alloc = None  # (security name, amount) of the most recent SecurityBase.allocate call
 
     def __init__(self, bt, model, root=None):
         self.bt = bt
